@@ -158,7 +158,7 @@ def _prune_cache(cfg, keep, maxn=400, max_age_s=6 * 3600):
 
 class Fn:
     __slots__ = ("raw", "path", "crate", "kind", "blocks", "locals", "argc", "span", "root", "debug",
-                 "_cfg", "captures", "name_of_local")
+                 "_cfg", "captures", "name_of_local", "inlined_from", "n_own")
 
     def __init__(self, raw, crate):
         self.raw = raw
